@@ -51,7 +51,7 @@ StackIndexErr(c) ==
 FilterErr(c) ==
   LET sel == SeqToSet(c.sel)
       expV == {n \in DOMAIN c.g.verts : n \in sel}
-      expE == {x \in DOMAIN c.g.edges : c.ends[x][1] \in sel /\ c.ends[x][2] \in sel}
+      expE == {x \in DOMAIN c.g.edges : x \in DOMAIN c.ends /\ c.ends[x][1] \in sel /\ c.ends[x][2] \in sel}   \* c.ends: the connections of the nodes handed to filter()
   IN IF DOMAIN c.out.verts # expV THEN Err("FilterKeepsSelectedNodes", <<c.flag>>, expV, DOMAIN c.out.verts)
      ELSE IF DOMAIN c.out.edges # expE THEN Err("FilterKeepsConnectionsAmongSelected", <<c.flag>>, expE, DOMAIN c.out.edges)
      ELSE IF \E n \in expV : c.out.verts[n] # c.g.verts[n] THEN Err("FilterLeavesVerticesUnchanged", <<c.flag>>, "same rows", "changed")
@@ -84,7 +84,7 @@ ToGraphErr(c) ==
 RecFilterErr(c) ==
   LET sel == SeqToSet(c.sel)
       expN == {n \in DOMAIN c.rec.steps : n \in sel}
-      expX == {x \in DOMAIN c.rec.msgs : c.ends[x][2] \in sel /\ c.ends[x][1] \in sel}
+      expX == {x \in DOMAIN c.rec.msgs : x \in DOMAIN c.ends /\ c.ends[x][2] \in sel /\ c.ends[x][1] \in sel}
   IN IF DOMAIN c.out.steps # expN THEN Err("RecordFilterKeepsSelectedNodes", <<c.flag>>, expN, DOMAIN c.out.steps)
      ELSE IF DOMAIN c.out.msgs # expX THEN Err("RecordFilterKeepsConnections", <<c.flag>>, expX, DOMAIN c.out.msgs)
      ELSE IF \E n \in expN : c.out.steps[n] # c.rec.steps[n] THEN Err("RecordFilterLeavesStepsUnchanged", <<c.flag>>, "same", "changed")
